@@ -19,14 +19,19 @@ What is proved here, about the executable model in `Model.lean` (tied to the Rus
 * the binary node section written by the exporter for *any* bottom-up numbered node list is
   decoded by the importer to exactly that node list (same level, same children, same
   complement bits), in the same manager and in any manager with a compatible order;
-* name sanitising does what is documented; the generated-name scheme is **not** always
-  injective (witness), and is injective whenever `leading_underscores` is what the documentation
-  says it is;
-* the binary importer **can panic** on crafted input (three witnesses, each a few bytes); with
-  the two missing range checks it is total (`ok`/`err` on every input).
+* name sanitising does what is documented and the exported names (untouched, sanitised,
+  generated) are pairwise distinct for every manager;
+* after the header is loaded the importer is total: ASCII and binary node sections and the root
+  loop return `ok` or `err` on every input, no index is ever out of range.
 
-ASCII mode, the header parser and the truth of "handles are equal" inside a real manager are
-covered by the correspondence stream and the oracles only.
+The model follows /repo after the fix commits 2741478, 675d3b1, 178db83, 87032be, 16c2a8d
+(`Guards.code`). The code before these commits (`Guards.before`) is kept for the `…_before_fix`
+regression examples: generated names could collide and the binary importer could panic on three
+crafted inputs of a few bytes each. One defect is left in /repo as a known finding (an MTBDD
+manager holding a single constant is exported in binary mode; `binary_mode_loses_constant`).
+
+The header parser, the exporter's header lines and the truth of "handles are equal" inside a
+real manager are covered by the correspondence stream and the oracles only.
 -/
 namespace OxiddModel.Dddmp
 
@@ -91,15 +96,15 @@ example : binIdx 1 1 9 = (.terminal, 0) ∧ binIdx 1 8 9 = (.relative1, 0) ∧ b
 
 /-- The variable code chosen by the writer for a node at support index `vi` whose topmost child
 is at support index `m > vi` (on level `minLevel`) is resolved by the reader to `vi`. -/
-theorem varcode_roundtrip (g : Guards) (vi m minLevel : Nat) (lsm slm : List Nat)
+theorem varcode_roundtrip (vi m minLevel : Nat) (lsm slm : List Nat)
     (h : vi < slm.length) (hm : vi < m) (hml : minLevel ≠ levelMax) (hl : lsm[minLevel]? = some m) :
-    resolveVid g (varCodeOf vi (some m)).1 (vidRead (varCodeOf vi (some m))) minLevel lsm slm = .ok vi :=
-  resolveVid_varCodeOf_some g vi m minLevel lsm slm h hm hml hl
+    resolveVid (varCodeOf vi (some m)).1 (vidRead (varCodeOf vi (some m))) minLevel lsm slm = .ok vi :=
+  resolveVid_varCodeOf_some vi m minLevel lsm slm h hm hml hl
 
 /-- … and with two terminal children (`AbsoluteID` is used). -/
-theorem varcode_roundtrip_terminal (g : Guards) (vi : Nat) (lsm slm : List Nat) (h : vi < slm.length) :
-    resolveVid g (varCodeOf vi none).1 (vidRead (varCodeOf vi none)) levelMax lsm slm = .ok vi :=
-  resolveVid_varCodeOf_none g vi lsm slm h
+theorem varcode_roundtrip_terminal (vi : Nat) (lsm slm : List Nat) (h : vi < slm.length) :
+    resolveVid (varCodeOf vi none).1 (vidRead (varCodeOf vi none)) levelMax lsm slm = .ok vi :=
+  resolveVid_varCodeOf_none vi lsm slm h
 
 example : varCodeOf 4 (some 5) = (.relative1, 4) ∧ varCodeOf 4 (some 6) = (.relativeID, 2)
     ∧ varCodeOf 1 (some 6) = (.absoluteID, 1) := by decide
@@ -117,50 +122,42 @@ theorem sanitize_ok (s : List Nat) :
 
 example : replaceSpaceAndControl [97, 32, 9, 98, 127] = ([97, 95, 95, 98, 95], true) := by decide
 
-/-
-Full statement (FALSE for the code as it is):
+/-- **The exported variable names are pairwise distinct** — untouched names, sanitised names and
+generated names (`_…x{i}` for unnamed variables, `_…x{i}_{name}` when a sanitised name collides) —
+for every manager (non-empty names pairwise distinct), in strict and non-strict mode: the
+`leading_underscores` argument of the documentation, for the code as it is now. -/
+theorem gen_names_distinct (strict : Bool) (names : List (List Nat)) (hm : ManagerNames names)
+    (out : List (List Nat)) (h : (exportedVarNames Guards.code strict names).1 = some out) : out.Nodup :=
+  exported_names_nodup Guards.code strict names hm (leadOK_max names) out h
 
-  theorem gen_names_distinct (strict) (names) (hm : ManagerNames names) (out)
-      (h : (exportedVarNames Guards.code strict names).1 = some out) : out.Nodup
+/-- The same for any variant of the code, given that `leading_underscores` exceeds the number of
+leading underscores of every exported name (`LeadOK`). -/
+theorem gen_names_distinct_of_leadOK (g : Guards) (strict : Bool) (names : List (List Nat)) (hm : ManagerNames names)
+    (hlead : LeadOK g.leadMax names) (out : List (List Nat)) (h : (exportedVarNames g strict names).1 = some out) :
+    out.Nodup :=
+  exported_names_nodup g strict names hm hlead out h
 
-`leading_underscores` is *assigned* by every name with leading underscores instead of being
-maximised, so a later name with fewer underscores lowers it again.
--/
-
-/-- **defect witness**: variables named `__x1`, (unnamed), `_y` — the unnamed variable 1 is
-exported as `__x1`, the name of variable 0. -/
-theorem gen_names_distinct_false :
+/-- regression example (code before fix 87032be, `leading_underscores` assigned instead of
+maximised): variables named `__x1`, (unnamed), `_y` — the unnamed variable 1 was exported as
+`__x1`, the name of variable 0. -/
+theorem gen_names_distinct_before_fix :
     ¬ ∀ (names : List (List Nat)), ManagerNames names → ∀ out,
-        (exportedVarNames Guards.code false names).1 = some out → out.Nodup := by
+        (exportedVarNames Guards.before false names).1 = some out → out.Nodup := by
   intro h
   have := h [[95, 95, 120, 49], [], [95, 121]] (by decide)
     [[95, 95, 120, 49], [95, 95, 120, 49], [95, 121]] (by decide)
   revert this
   decide
 
-/-- If `leading_underscores` exceeds the number of leading underscores of every exported name
-(`LeadOK`, what the documentation describes) the exported names — untouched, sanitised and
-generated (`_…x{i}` / `_…x{i}_{name}`) — are pairwise distinct, in strict and non-strict mode. -/
-theorem gen_names_distinct_partial (g : Guards) (strict : Bool) (names : List (List Nat)) (hm : ManagerNames names)
-    (hlead : LeadOK g.leadMax names) (out : List (List Nat)) (h : (exportedVarNames g strict names).1 = some out) :
-    out.Nodup :=
-  exported_names_nodup g strict names hm hlead out h
-
-/-- With the one-word repair (`leading_underscores = leading_underscores.max(i + 2)`) the
-hypothesis is always met: the exported names are pairwise distinct for every manager. -/
-theorem gen_names_distinct_fixed (strict : Bool) (names : List (List Nat)) (hm : ManagerNames names)
-    (out : List (List Nat)) (h : (exportedVarNames Guards.all strict names).1 = some out) : out.Nodup :=
-  exported_names_nodup Guards.all strict names hm (leadOK_max names) out h
+/-- the same manager with the current code: three underscores -/
+example : (exportedVarNames Guards.code false [[95, 95, 120, 49], [], [95, 121]]).1
+    = some [[95, 95, 120, 49], [95, 95, 95, 120, 49], [95, 121]] := by decide
 
 /-- non-vacuity: `a b`, `a_b`, unnamed, `_c` (collision after sanitising ⇒ prefix scheme) -/
 example : ManagerNames [[97, 32, 98], [97, 95, 98], [], [95, 99]] ∧
-    LeadOK false [[97, 32, 98], [97, 95, 98], [], [95, 99]] ∧
     (exportedVarNames Guards.code false [[97, 32, 98], [97, 95, 98], [], [95, 99]]).1
       = some [[95, 95, 120, 48, 95, 97, 95, 98], [97, 95, 98], [95, 95, 120, 50], [95, 99]] := by
-  refine ⟨by decide, ?_, by decide⟩
-  intro n hn
-  simp only [List.mem_cons, List.not_mem_nil, or_false] at hn
-  rcases hn with rfl | rfl | rfl | rfl <;> decide
+  exact ⟨by decide, by decide⟩
 
 /-! ## (7) structured export → import -/
 
@@ -172,17 +169,19 @@ support levels themselves in the same manager). For every edge algebra whose `re
 node at the requested level (nothing in the file is reducible — true of every file the exporter
 writes, and of the free algebra) the importer accepts the bytes, consumes exactly the node
 section, and the edges it creates are those of the reference construction `buildNodes`: node by
-node the same level (translated by `tlev`), the same children, the same complement bit — for the
-code as it is (`Guards.code`) and with the extra range checks. -/
+node the same level (translated by `tlev`), the same children, the same complement bit — for
+every variant `g` of the code (in particular `Guards.code`). `complement` must not move an edge to
+another level (true for BDD `not`, BCDD tag flip, the identity; not for ZBDD `not`, which a file
+written by the exporter never needs). -/
 theorem export_import_struct {E : Type} (g : Guards) (A : Alg E) (term : E) (nvars numLevels : Nat)
     (slm : List Nat) (d : Diagram) (r : List Nat)
     (hT : A.parseTerminal [84] = some term) (hterm : A.level term = levelMax)
-    (hred : ∀ l cs, A.level (A.reduce l cs) = l)
+    (hred : ∀ l cs, A.level (A.reduce l cs) = l) (hcl : ∀ x, A.level (A.complement x) = A.level x)
     (hd : d.terms.length = 1) (hw : WFNodes nvars d.nodes)
     (M : LevelMaps (suppLevels nvars d.nodes) slm numLevels) :
     ∃ built, buildNodes A (tlev (suppLevels nvars d.nodes) slm) d.nodes [term] = some built ∧
       importBin g A (d.nodes.length + 1) numLevels slm (nodeSection false nvars d ++ r) = .ok (built, r) :=
-  importBin_nodeSection g A term nvars numLevels slm d r hT hterm hred hd hw M
+  importBin_nodeSection g A term nvars numLevels slm d r hT hterm hred hcl hd hw M
 
 /-- In the free algebra an edge *is* its unfolded tree: equal results mean node-by-node equal
 `(level, then, else, complement)` records. -/
@@ -201,7 +200,7 @@ theorem export_import_struct_free (nvars : Nat) (d : Diagram) (r : List Nat)
       importBin Guards.code freeAlg (d.nodes.length + 1) nvars (suppLevels nvars d.nodes)
         (nodeSection false nvars d ++ r) = .ok (built, r) :=
   export_import_struct Guards.code freeAlg (false, RT.term) nvars nvars _ d r (by decide) rfl
-    freeAlg_level_reduce hd hw M
+    freeAlg_level_reduce (fun _ => rfl) hd hw M
 
 /-- in the same manager the level translation is the identity on support levels -/
 theorem tlev_same_manager (supp : List Nat) (hs : supp.Pairwise (· < ·)) (l : Nat) (hl : l ∈ supp)
@@ -251,57 +250,134 @@ example : importBin Guards.code freeAlg 4 3 [1, 2] (nodeSection false 3 exampleD
 
 /-! ## importer totality -/
 
-/-
-Full statement (FALSE for the code as it is):
-
-  theorem importBin_never_panics (A : Alg E) (L : LevelLaws A) … (inp : List Nat) :
-      importBin Guards.code A nnodes numLevels slm inp ≠ .panic
--/
-
-/-- **defect witness 1** (`suppvar_level_map[vid]` out of bounds): `.nsuppvars 1` in a 3-level
-manager, one node with variable code `Relative1` and two terminal children. -/
-theorem importBin_panics_relative_var :
-    importBin Guards.code freeAlg 2 3 [0] [0, 0, 100, 46, 101, 110, 100, 10] = .panic := by decide
-
-/-- **defect witness 2** (`node_id - decode_7bit(..)` underflows): then-id `RelativeID 5` at node 2
-(panics with overflow checks, i.e. in debug builds and in the harness). -/
-theorem importBin_panics_relative_id :
-    importBin Guards.code freeAlg 2 1 [0] [0, 0, 52, 0, 0, 10 ] = .panic := by decide
-
-/-- **defect witness 3**: a binary-mode file for a diagram kind whose terminals do not parse `T`
-(ZBDD, MTBDD) panics before reading a byte (`"could not find the T terminal"`). -/
-theorem importBin_panics_without_T {E : Type} (A : Alg E) (h : A.parseTerminal [84] = none)
-    (nnodes numLevels : Nat) (slm inp : List Nat) : importBin Guards.code A nnodes numLevels slm inp = .panic := by
-  simp [importBin, h, Guards.code]
-
-/-- **Totality with the two range checks** (`Guards.all`, the proposed repair): for every input,
-every node count and every target manager whose `reduce` / `complement`
-respect levels, the binary importer returns `ok` or `err`. In particular every index into the node
-vector, into `level_suppvar_map` and into `suppvar_level_map` is in range — the guards the code
-already has (`id != 0`, `id < node_id`, `checked_sub`, `AbsoluteID` range check) plus the two
-missing ones suffice. -/
-theorem importBin_guarded_never_panics {E : Type} (A : Alg E) (L : LevelLaws A)
+/-- **The binary importer never panics**: for every input, every node count and every target
+manager whose `reduce` / `complement` respect levels, `import_bin` returns `ok` or `err` — every
+index into the node vector, into `level_suppvar_map` and into `suppvar_level_map` is in range, the
+relative-id subtraction cannot underflow, a diagram kind without a `T` terminal is an error, no
+capacity is taken from the file. Stated for every variant with the importer-side fixes
+(`Guards.ImportSafe`), hence for the code as it is (`importBin_never_panics`). -/
+theorem importBin_never_panics_of_safe {E : Type} (g : Guards) (hg : g.ImportSafe) (A : Alg E) (L : LevelLaws A)
     (nnodes numLevels : Nat) (slm inp : List Nat)
     (hterm : ∀ t, A.parseTerminal [84] = some t → A.level t = levelMax ∨ A.level t < numLevels)
     (hslm : ∀ x ∈ slm, x < numLevels) :
-    importBin Guards.all A nnodes numLevels slm inp ≠ .panic := by
+    importBin g A nnodes numLevels slm inp ≠ .panic := by
+  obtain ⟨h1, h2, h3, h4⟩ := hg
   unfold importBin
   cases hT : A.parseTerminal [84] with
-  | none => simp [Guards.all]
+  | none => simp [h3]
   | some term =>
-    simp only [Guards.all, Bool.not_true, Bool.false_and, Bool.false_eq_true, ↓reduceIte]
-    apply importBinLoop_all_ne_panic A L term
-    · rw [mkLevelSuppvarMap_length]; exact hterm term hT
-    · rw [mkLevelSuppvarMap_length]; exact hslm
+    simp only [h4, Bool.not_true, Bool.false_and, Bool.false_eq_true, ↓reduceIte]
+    apply importBinLoop_all_ne_panic A L term _ _ _ _ g h1 h2
     · rfl
     · intro x hx; simp at hx
+    · rw [mkLevelSuppvarMap_length]; exact hterm term hT
+    · rw [mkLevelSuppvarMap_length]; exact hslm
 
-/-- the free algebra satisfies the level laws (non-vacuity of the totality theorem) -/
+theorem importBin_never_panics {E : Type} (A : Alg E) (L : LevelLaws A)
+    (nnodes numLevels : Nat) (slm inp : List Nat)
+    (hterm : ∀ t, A.parseTerminal [84] = some t → A.level t = levelMax ∨ A.level t < numLevels)
+    (hslm : ∀ x ∈ slm, x < numLevels) :
+    importBin Guards.code A nnodes numLevels slm inp ≠ .panic :=
+  importBin_never_panics_of_safe Guards.code ⟨rfl, rfl, rfl, rfl⟩ A L nnodes numLevels slm inp hterm hslm
+
+/-- **The ASCII importer never panics** (no hypothesis on the manager side at all): node ids are
+checked against the line number, children against the node id, so every lookup in the node vector
+is in range. -/
+theorem importAscii_never_panics {E : Type} (A : Alg E) (h : Header) (slm inp : List Nat) :
+    importAscii Guards.code A h slm inp ≠ .panic := by
+  unfold importAscii
+  simp only [Guards.code, Bool.not_true, Bool.false_and, Bool.false_eq_true, ↓reduceIte]
+  exact (importAsciiLoop_ne_panic A h.varinfo slm h.nnodes 1 [] inp rfl).1
+
+/-- **`import` never panics** once the header is loaded: both node-section readers and the root
+loop. `hroots` is what `DumpHeader::load` has checked (`.rootids` non-zero and `≤ .nnodes`),
+`hslm` what the caller guarantees (levels of the target manager). -/
+theorem importNodes_never_panics {E : Type} (A : Alg E) (L : LevelLaws A) (h : Header)
+    (numLevels : Nat) (slm inp : List Nat)
+    (hroots : ∀ r ∈ h.rootids, r ≠ 0 ∧ r.natAbs ≤ h.nnodes)
+    (hterm : ∀ t, A.parseTerminal [84] = some t → A.level t = levelMax ∨ A.level t < numLevels)
+    (hslm : ∀ x ∈ slm, x < numLevels) :
+    importNodes Guards.code A h numLevels slm inp ≠ .panic := by
+  unfold importNodes
+  simp only
+  by_cases ha : h.ascii = true
+  · simp only [ha, ↓reduceIte]
+    have h1 := importAscii_never_panics A h slm inp
+    cases hr : importAscii Guards.code A h slm inp with
+    | err => simp
+    | panic => exact absurd hr h1
+    | ok p =>
+      obtain ⟨nodes, rest⟩ := p
+      simp only
+      split
+      · simp
+      · apply importRoots_ne_panic
+        have hlen : nodes.length = h.nnodes := by
+          unfold importAscii at hr
+          simp only [Guards.code, Bool.not_true, Bool.false_and, Bool.false_eq_true, ↓reduceIte] at hr
+          have := (importAsciiLoop_ne_panic A h.varinfo slm h.nnodes 1 [] inp rfl).2 nodes rest hr
+          simpa using this
+        rw [hlen]; exact hroots
+  · simp only [ha, Bool.false_eq_true, ↓reduceIte]
+    have h1 := importBin_never_panics A L h.nnodes numLevels slm inp hterm hslm
+    cases hr : importBin Guards.code A h.nnodes numLevels slm inp with
+    | err => simp
+    | panic => exact absurd hr h1
+    | ok p =>
+      obtain ⟨nodes, rest⟩ := p
+      simp only
+      split
+      · simp
+      · apply importRoots_ne_panic
+        have hlen : nodes.length = h.nnodes := by
+          unfold importBin at hr
+          cases hT : A.parseTerminal [84] with
+          | none => simp [hT, Guards.code] at hr
+          | some term =>
+            simp only [hT, Guards.code, Bool.not_true, Bool.false_and, Bool.false_eq_true, ↓reduceIte] at hr
+            have := importBinLoop_length _ A term _ slm h.nnodes 1 [] inp nodes rest hr
+            simpa using this
+        rw [hlen]; exact hroots
+
+/-- the free algebra satisfies the level laws (non-vacuity of the totality theorems) -/
 example : LevelLaws freeAlg :=
   ⟨fun l t e => Or.inl (freeAlg_level_reduce l [t, e]), fun _ => rfl⟩
 
-/-- with the guards the three witnesses are rejected / still flagged as the kind mismatch -/
-example : importBin Guards.all freeAlg 2 3 [0] [0, 0, 100, 46, 101, 110, 100, 10] = .err ∧
-    importBin Guards.all freeAlg 2 1 [0] [0, 0, 52, 0, 0, 10] = .err := by decide
+/-- regression examples (code before fix 2741478 / 675d3b1): three inputs of a few bytes on which
+`import_bin` panicked, and what the current code answers.
+1. `.nsuppvars 1` in a 3-level manager, a node with variable code `Relative1` and two terminal
+   children: `suppvar_level_map[vid]` out of bounds;
+2. then-id `RelativeID 5` at node 2: `node_id - decode_7bit(..)` underflowed (overflow checks);
+3. any binary file for a kind whose terminals do not parse `T`. -/
+theorem importBin_panics_relative_var_before_fix :
+    importBin Guards.before freeAlg 2 3 [0] [0, 0, 100, 46, 101, 110, 100, 10] = .panic ∧
+    importBin Guards.code freeAlg 2 3 [0] [0, 0, 100, 46, 101, 110, 100, 10] = .err := by decide
+
+theorem importBin_panics_relative_id_before_fix :
+    importBin Guards.before freeAlg 2 1 [0] [0, 0, 52, 0, 0, 10] = .panic ∧
+    importBin Guards.code freeAlg 2 1 [0] [0, 0, 52, 0, 0, 10] = .err := by decide
+
+theorem importBin_panics_without_T_before_fix {E : Type} (A : Alg E) (h : A.parseTerminal [84] = none)
+    (nnodes numLevels : Nat) (slm inp : List Nat) :
+    importBin Guards.before A nnodes numLevels slm inp = .panic ∧
+    importBin Guards.code A nnodes numLevels slm inp = .err := by
+  simp [importBin, h, Guards.before, Guards.code]
+
+/-! ## the remaining defect (known finding) -/
+
+/-- **Known finding** (`binary_supported` looks at the *current* number of terminals): a manager
+with binary nodes and exactly one terminal that is not `T` — an MTBDD holding a single constant,
+here `5` — is exported in binary mode although ASCII was not ruled out by the caller; the file
+does not contain the value (`.mode B`, node section `00 00`), and no kind whose terminal parser
+rejects `T` can read it back. With the unapplied repair (`Guards.all`) ASCII mode is chosen. -/
+theorem binary_mode_loses_constant :
+    let m : MgrView := { nvars := 2, names := [[], []], v2l := [0, 1], arity := 2, numTerminals := 1, allTermsT := false }
+    let d : Diagram := { terms := [[53]], nodes := [], roots := [1], rootNames := none }
+    let s : Settings := { v3 := false, ascii := false, strict := true, ddName := [] }
+    (exportFile Guards.code s m d).2 = false ∧
+    nodeSection (s.ascii || !(m.arity = 2 && m.numTerminals = 1)) m.nvars d = [0, 0] ∧
+    nodeSection (s.ascii || !(m.arity = 2 && m.numTerminals = 1) || (Guards.all.binT && !m.allTermsT)) m.nvars d
+      = [49, 32, 53, 32, 48, 32, 48, 10] := by
+  decide
 
 end OxiddModel.Dddmp
